@@ -201,6 +201,8 @@ def rejection(r, s, lw, ns, dt, case):
         if not opts:
             opts = [(0.5, False)]
         menus.append(opts)
+    before = {f: tonp(getattr(s, f)).copy() for f in ("log_w", "weights", "log_likelihood", "log_prior", "log_q", "x")}
+    ev_before = f(s.log_evidence)
     for combo in itertools.product(*menus):
         u = np.array([c[0] for c in combo])
         keep = np.array([c[1] for c in combo])
@@ -231,6 +233,18 @@ def rejection(r, s, lw, ns, dt, case):
             w = tonp(getattr(s, fld))[keep]
             if not np.array_equal(g, w, equal_nan=True):
                 r.violation(f"C02/rejection/row-alignment/{fld}", {"got": g.tolist(), "want": w.tolist()}, c2)
+    unchanged_after_rejection(r, s, before, ev_before, case)
+
+
+def unchanged_after_rejection(r, s, before, ev_before, case):
+    """Rejection sampling must not alter the set it samples from."""
+    for fld, old in before.items():
+        now = tonp(getattr(s, fld))
+        if now.shape != old.shape or not np.array_equal(now, old, equal_nan=True):
+            r.violation(f"C02/rejection/source-set-modified/{fld}", {"before": old.tolist(), "after": now.tolist()}, case)
+            return
+    if f(s.log_evidence) != ev_before and not (math.isnan(ev_before) and math.isnan(f(s.log_evidence))):
+        r.violation("C02/rejection/source-set-modified/log_evidence", None, case)
 
 
 def run_chunk(arg):
